@@ -378,7 +378,7 @@ CHECKS["C16"] = {
 CHECKS["C18"] = {
     "pkg": "./compat",
     "level": "exploration",
-    "rule": ("wire: sequences of 1..10 packets as either version's stream layer emits them (kinds 1..7, ids increasing with stream changes, payload 0..300 KB split by each version's own SplitN with sizes 1/5/100/64 KiB/default/unsplit, "
+    "rule": ("wire: sequences of 1..10 packets as either version's stream layer emits them (kinds 1..7, ids increasing with stream changes, payload 0..300 KB and, rarely, exactly the 4 MiB packet limit of both readers or one byte less, split by each version's own SplitN with sizes 1/5/100/64 KiB/default/unsplit, "
              "writer buffers 1/50/default/64 KiB, frames under the v0.0.17 scanner's 1 MiB limit) plus control-bit packets from the new side (KindCancel and unknown kinds 0/9/33/63, single- and multi-frame) are encoded by the current writer and by the "
              "verbatim v0.0.17 writer and read back by both readers under chunkings 1/7/4096/all: new-encode must decode under v0.0.17 to the same packets minus the control-bit ones and under the current reader to the same plus them; old-encode must decode identically under both. "
              "metadata: maps of valid-UTF-8 strings (empty, long, special) are encoded by each version and decoded by the other to the same map. "
